@@ -977,11 +977,17 @@ func main() {
 	pebble0 = filepath.Join(scratch, "dbs", "pebble0")
 	jsonDB = filepath.Join(scratch, "dbs", "sigs.json")
 	must(os.MkdirAll(filepath.Join(scratch, "dbs"), 0o755))
+	hugeDir := filepath.Join(scratch, "sighuge")
+	must(os.MkdirAll(hugeDir, 0o755))
+	must(os.WriteFile(filepath.Join(hugeDir, "go.mod"), []byte("module example.com/sighuge\n\ngo 1.24\n"), 0o644))
+	must(os.WriteFile(filepath.Join(hugeDir, "s.go"), []byte(sigHugeSource()), 0o644))
 	for _, db := range []string{pebble0, jsonDB} {
-		r := runSfw(scratch, "index", "--name", "T", "--db", db, filepath.Join(sigDir, "s.go"))
-		if r.RC != 0 {
-			res.Broken = "sfw index failed: " + tail(r.Stderr, 500)
-			return
+		for _, src := range []string{filepath.Join(sigDir, "s.go"), filepath.Join(hugeDir, "s.go")} {
+			r := runSfw(scratch, "index", "--name", "T", "--db", db, src)
+			if r.RC != 0 {
+				res.Broken = "sfw index failed: " + tail(r.Stderr, 500)
+				return
+			}
 		}
 	}
 
